@@ -4968,19 +4968,26 @@ impl PeerConnectionInner {
         // (or be reached from) separate per-section answer ports.
         let legacy_sip =
             self.config.sdp_compatibility == crate::config::SdpCompatibilityMode::LegacySip;
-        // A re-offer keeps the transport layout of the established session: when
+        // A re-offer keeps the transport layout of the established session. When
         // the session was negotiated without BUNDLE (peer in LegacySip mode, or
         // any un-bundled offer we answered) each m-line already has its own
         // transport on both sides, and starting to bundle on a later offer would
         // move every section onto the first transport while the peer keeps
-        // sending to / receiving on the per-section sockets.
-        let established_unbundled = sdp_type == SdpType::Offer
-            && self.remote_description.lock().as_ref().is_some_and(|d| {
-                d.media_sections.len() > 1 && !PeerConnection::sdp_has_bundle(d)
-            });
+        // sending to / receiving on the per-section sockets. Likewise a LegacySip
+        // endpoint that answered a BUNDLE offer shares one transport with its
+        // peer and keeps the group in its own later offers.
+        let established_bundle = if sdp_type == SdpType::Offer {
+            self.remote_description
+                .lock()
+                .as_ref()
+                .filter(|d| d.media_sections.len() > 1)
+                .map(PeerConnection::sdp_has_bundle)
+        } else {
+            None
+        };
         let will_bundle = match sdp_type {
             SdpType::Offer => {
-                !legacy_sip && ordered_transceivers.len() > 1 && !established_unbundled
+                ordered_transceivers.len() > 1 && established_bundle.unwrap_or(!legacy_sip)
             }
             SdpType::Answer => remote_offered_bundle,
             _ => false,
